@@ -1425,7 +1425,11 @@ class MPO:
                 tensor[3, 3] = id_r
 
             # (left, right, phys_out, phys_in) -> (phys_out, phys_in, left, right)
-            tensors.append(np.transpose(tensor, (2, 3, 0, 1)))
+            tensors.append(np.transpose(tensor, (2, 3, 0, 1)).astype(np.complex128))
+
+        if length == 1:
+            # a single transmon: only its own Duffing term
+            tensors = [np.asarray(h_q, dtype=np.complex128).reshape(qubit_dim, qubit_dim, 1, 1)]
 
         mpo = cls()
         mpo.tensors = tensors
